@@ -82,7 +82,8 @@ def prio_kinds(m):
 
 ALIASES = [None, None, None, "a", "job", "exactly16chars..", "seventeen chars!!", "x" * 40, "äöü中文 alias",
            "", "#", "with # hash and more than sixteen", "{tenant}-sync", "report {0}", "100%s", "%(x)s {", "}{"]
-WEIGHTS = [1, 0, 2, 10, 123456, 1234567, 0.5, 0.1, 1e-9, 1e16, 1.0, 3.14159265358979, 12345.678, -1, float(2**70), 99999, 100000.5]
+WEIGHTS = [1, 0, 2, 10, 123456, 1234567, 0.5, 0.1, 1e-9, 1e16, 1.0, 3.14159265358979, 12345.678, -1, float(2**70), 99999, 100000.5,
+           10**400, -(10**400), 2**1024, float("inf"), 1e308, 5e-324]
 MAXES = [0, 1, 2, 10, 999, 10**6, 10**12, 10**15]
 TZNAMES = [None, None, "X", "Europe/Berlin-ish", "A very long timezone name indeed", "twelve chars", "thirteen char"]
 
@@ -100,7 +101,11 @@ def view_of(job, now_dt, aio):
     neg = td.total_seconds() < 0
     tzn = d.tzname()
     w = "0" if aio else "%s" % job.weight
-    w3 = "0" if aio else "%.3g" % job.weight
+    # f"{weight:.3g}" has no value for an int beyond the float range; Job.__str__ then shows str(weight)
+    try:
+        w3 = "0" if aio else "%.3g" % job.weight
+    except OverflowError:
+        w3 = "%s" % job.weight
     return " ".join([str(job.type.value - 1), str(job.max_attempts), oenc(job.alias), oenc(qn), enc(tn), str(code),
                      enc(str(d)), oenc(tzn if tzn is None else str(tzn)), str(int(neg)), enc(str(-td if neg else td)),
                      str(job.attempts), enc(w), enc(w3), str(core.dt_parts(d)[0])])
